@@ -272,7 +272,10 @@ namespace GeographicLib {
           int n = todo.top().second;
           dist_t d = -todo.top().first;
           todo.pop();
-          dist_t tau1 = tau - tol;
+          // Only apply the tolerance to tau if tau is the distance to the k'th
+          // point found (not the initial value maxdist); otherwise points in
+          // (maxdist - tol, maxdist] are lost even if less than k are found.
+          dist_t tau1 = int(results.size()) == k ? tau - tol : tau;
           // compare tau and d again since tau may have become smaller.
           if (!( n >= 0 && tau1 >= d )) continue;
           const Node& current = _tree[n];
@@ -304,7 +307,7 @@ namespace GeographicLib {
           if (exitflag) break;
 
           if (current.index < 0) continue;
-          tau1 = tau - tol;
+          tau1 = int(results.size()) == k ? tau - tol : tau;
           for (int l = 0; l < 2; ++l) {
             if (current.data.child[l] >= 0 &&
                 dst + current.data.upper[l] >= mindist) {
